@@ -60,3 +60,140 @@ def jobs(tier):
         for wrong in WRONG[want]:
             out.append((name, want, decl, store, use, wrong, in_sub, version, fp))
     return out
+
+
+# ---- every public expression constructor x every vector of stack types -------------------------------------------------------------
+# For each callable exported by pyteal (and the static builders of App / Box / the *Param / *Holding families), every argument vector
+# in {uint64 expression, bytes expression}^k, k <= 3 is tried.  Whatever PyTeal accepts and compiles must apply no opcode to a value
+# of a definitely wrong type (the validator's op signatures are spec/langspec, independent of pyteal's own tables).
+HOLDERS = ("App", "Box", "AssetHolding", "AssetParam", "AppParam", "AccountParam", "BytesAdd")
+EXTRA_BUILDERS = {
+    "While.Do": lambda pt, a: pt.While(a[0]).Do(pt.Seq(pt.Pop(a[1]))) if len(a) == 2 else None,
+    "For.Do": lambda pt, a: pt.For(pt.Pop(a[0]), a[1], pt.Pop(a[2])).Do(pt.Seq()) if len(a) == 3 else None,
+    "Cond": lambda pt, a: pt.Cond([a[0], a[1]], [pt.Int(1), a[2]]) if len(a) == 3 else None,
+    "If.Then.ElseIf": lambda pt, a: pt.If(a[0]).Then(pt.Pop(a[1])).ElseIf(a[2]).Then(pt.Pop(pt.Int(1))) if len(a) == 3 else None,
+    "Seq": lambda pt, a: pt.Seq(*a),
+    "Assert-many": lambda pt, a: pt.Assert(*a),
+    "Subroutine-return": lambda pt, a: _sub_return(pt, a),
+    "InnerTxn.SetField": lambda pt, a: pt.Seq(pt.InnerTxnBuilder.Begin(), pt.InnerTxnBuilder.SetField(pt.TxnField.amount, a[0]),
+                                               pt.InnerTxnBuilder.SetField(pt.TxnField.receiver, a[1])) if len(a) == 2 else None,
+}
+
+
+def _sub_return(pt, a):
+    if len(a) != 2:
+        return None
+
+    @pt.Subroutine(pt.TealType.uint64)
+    def s(x):
+        return pt.Return(a[0])
+
+    @pt.Subroutine(pt.TealType.bytes)
+    def t(x):
+        return pt.Return(a[1])
+    return pt.Seq(pt.Pop(s(pt.Int(1))), pt.Pop(t(pt.Int(1))))
+
+
+def ctor_names():
+    from vf.core import use_repo
+    use_repo()
+    import pyteal as pt
+    names = [n for n in pt.__all__ if callable(getattr(pt, n, None))]
+    for h in HOLDERS:
+        c = getattr(pt, h, None)
+        if c is None:
+            continue
+        for m in sorted(vars(c)):
+            if not m.startswith("_") and callable(getattr(c, m, None)):
+                names.append(f"{h}.{m}")
+    return sorted(set(names)) + sorted(EXTRA_BUILDERS)
+
+
+def ctor_case(name):
+    from vf.core import use_repo
+    use_repo()
+    import pyteal as pt
+    from spec import tealcheck
+    out = {"name": name, "tried": 0, "accepted": [], "problems": []}
+    mk = {"U": lambda: pt.Int(1), "B": lambda: pt.Bytes("a")}
+    if name in EXTRA_BUILDERS:
+        f = lambda *a: EXTRA_BUILDERS[name](pt, a)
+    else:
+        f = pt
+        for part in name.split("."):
+            f = getattr(f, part)
+    own = (pt.TealTypeError, pt.TealInputError, pt.TealCompileError, pt.TealInternalError)
+    for k in (1, 2, 3):
+        for vec in itertools.product("UB", repeat=k):
+            out["tried"] += 1
+            try:
+                e = f(*[mk[c]() for c in vec])
+                if not isinstance(e, pt.Expr):
+                    continue
+                t = e.type_of()
+                prog = e if e.has_return() else (pt.Seq(e, pt.Approve()) if t == pt.TealType.none else pt.Seq(pt.Pop(e), pt.Approve()))
+            except BaseException:
+                continue   # not a constructor of this shape, or rejected
+            for version in (10, 6):
+                done = False
+                for mode in (pt.Mode.Application, pt.Mode.Signature):
+                    try:
+                        teal = pt.compileTeal(prog, mode, version=version)
+                    except own:
+                        continue
+                    except Exception as ex:
+                        continue
+                    out["accepted"].append(["".join(vec), mode.name, version])
+                    pr = [p for p in tealcheck.validate(teal, version, mode.name) if "applied to" in p]
+                    if pr:
+                        out["problems"].append({"vector": "".join(vec), "mode": mode.name, "version": version, "what": pr[0], "teal": teal})
+                    done = True
+                    break
+                if done:
+                    break
+    return out
+
+
+# ---- routine bodies whose type disagrees with the routine's declaration --------------------------------------------------------------
+BODIES = {"uint64": "pt.Int(1) + x", "bytes": "pt.Itob(x)", "none": "pt.Pop(x)"}
+ROUTINES = [
+    ("subroutine-uint64", "@pt.Subroutine(pt.TealType.uint64)\ndef f(x):\n    return BODY\n", "pt.Pop(f(pt.Int(3)))", "uint64"),
+    ("subroutine-bytes", "@pt.Subroutine(pt.TealType.bytes)\ndef f(x):\n    return BODY\n", "pt.Pop(f(pt.Int(3)))", "bytes"),
+    ("subroutine-none", "@pt.Subroutine(pt.TealType.none)\ndef f(x):\n    return BODY\n", "f(pt.Int(3))", "none"),
+    ("abi-output", "@pt.ABIReturnSubroutine\ndef f(x: pt.Expr, *, output: abi.Uint64):\n    return BODY\n", "pt.Seq((r := abi.Uint64()).set(f(pt.Int(3))), pt.Pop(r.get()))", "none"),
+    ("abi-output-set", "@pt.ABIReturnSubroutine\ndef f(x: pt.Expr, *, output: abi.Uint64):\n    return pt.Seq(output.set(x), BODY)\n", "pt.Seq((r := abi.Uint64()).set(f(pt.Int(3))), pt.Pop(r.get()))", "none"),
+    ("abi-void", "@pt.ABIReturnSubroutine\ndef f(x: pt.Expr):\n    return BODY\n", "f(pt.Int(3))", "none"),
+]
+
+
+def body_jobs():
+    return [(name, body, version, fp) for (name, _, _, want) in ROUTINES for body in BODIES if body != want
+            for (version, fp) in ((6, None), (8, None), (8, False), (10, None))]
+
+
+def body_case(job):
+    name, body, version, fp = job
+    from vf.core import use_repo
+    use_repo()
+    import pyteal as pt
+    from pyteal import abi
+    from spec import tealcheck
+    out = {"job": list(job), "problem": None, "accepted": False}
+    _, decl, call, _ = next(r for r in ROUTINES if r[0] == name)
+    src = decl.replace("BODY", BODIES[body]) + f"prog = pt.Seq({call}, pt.Approve())\n"
+    ns = {"pt": pt, "abi": abi}
+    try:
+        exec(compile(src, "<bodysink>", "exec", dont_inherit=True), ns)
+        kw = {"optimize": pt.OptimizeOptions(frame_pointers=False)} if fp is False else {}
+        teal = pt.compileTeal(ns["prog"], pt.Mode.Application, version=version, **kw)
+    except (pt.TealTypeError, pt.TealInputError, pt.TealCompileError, pt.TealInternalError):
+        return out
+    except Exception as e:
+        out["problem"] = f"exception {type(e).__name__}: {str(e)[:200]}"
+        return out
+    out["accepted"] = True
+    pr = tealcheck.validate(teal, version, "Application")
+    if pr:
+        out["problem"] = f"a {name} routine whose body has type {body} is accepted, and the emitted TEAL breaks stack/type discipline: {pr[:2]}"
+        out["teal"] = teal
+    return out
